@@ -178,7 +178,19 @@ pub fn variants() -> Vec<&'static Variant> {
     vec![&V, &VT]
 }
 
+fn small_programs() -> &'static Vec<Case> {
+    static S: std::sync::OnceLock<Vec<Case>> = std::sync::OnceLock::new();
+    S.get_or_init(|| {
+        super::c01::small_slice(true)
+            .iter()
+            .map(|c| Case { x: json!({ "alpha": [0x61, 0x62] }), ..c.clone() })
+            .collect()
+    })
+}
+
 pub fn run(ctx: &Ctx) -> i32 {
+    // bounded-exhaustive: every pattern of the small grammar of C01, validated on every haystack in {a,b}^<=4
+    ctx.run_list(&V, small_programs());
     match ctx.tier {
         Tier::Quick => ctx.run_variant(&V, ctx.scale(24_000, 0)),
         Tier::Thorough => {
@@ -192,7 +204,7 @@ pub fn run(ctx: &Ctx) -> i32 {
     }
     ctx.finish(
         "translation_validation",
-        "generated programs biased to what the passes rewrite (literal runs up to 33 chars, counted loops 0..6 on unrollable and non-unrollable bodies, single-char loops over every 1-char node kind, empty/always-failing brackets, lookbehind) ; each program is compiled with and without the optimizer and the two are compared on EVERY haystack of length <= L (4 quick, 4 and 5 thorough) over the program's relevant alphabet (<= 4 symbols) from every start offset (backtracker all starts, PikeVM start 0), plus 2-5 witness haystacks sampled from the program's own language (so that literals longer than L, counted loops and lookbehind contexts are reached). Non-trivial = the optimizer changed the program (Debug dumps differ) and some haystack matched.",
+        "(bounded-exhaustive) all 141k patterns of the small grammar of C01, each validated on ALL haystacks in {a,b}^<=4 from every start; plus generated programs biased to what the passes rewrite (literal runs up to 33 chars, counted loops 0..6 on unrollable and non-unrollable bodies, single-char loops over every 1-char node kind, empty/always-failing brackets, lookbehind) ; each program is compiled with and without the optimizer and the two are compared on EVERY haystack of length <= L (4 quick, 4 and 5 thorough) over the program's relevant alphabet (<= 4 symbols) from every start offset (backtracker all starts, PikeVM start 0), plus 2-5 witness haystacks sampled from the program's own language (so that literals longer than L, counted loops and lookbehind contexts are reached). Non-trivial = the optimizer changed the program (Debug dumps differ) and some haystack matched.",
         &["bounded equivalence only: haystacks longer than L or over other characters are not examined", "fuel hook cuts runaway searches (counted)"],
     )
 }
